@@ -42,8 +42,20 @@ class Gen(object):
         self.lid = 0
         self.extra_reads = list(globals_) + list(builtins_)
         self.hnames = ['e1', 'e2']      # except-clause names: a separate alphabet in the C03 fragment
+        self.maybe = set()              # names bound somewhere textually before the point being generated
+        self.prologue = 0.55
+        self.single = False             # inject one isolated binding of `z` (see inject_single)
 
     def name(self):
+        n = self.rng.choice(self.names)
+        self.maybe.add(n)
+        return n
+
+    def read_name(self):
+        # mostly names that may be bound by now: keeps strict executions from ending at the first read while
+        # leaving every name unbound before its first binding construct
+        if self.maybe and self.rng.random() < 0.85:
+            return self.rng.choice(sorted(self.maybe))
         return self.rng.choice(self.names)
 
     def expr(self, lo=0, hi=2, walrus=True):
@@ -52,8 +64,10 @@ class Gen(object):
             if walrus and self.rng.random() < 0.08:
                 atoms.append(('w', self.name(), 0))
             else:
-                pool = self.names + (self.extra_reads if self.rng.random() < 0.25 else [])
-                atoms.append(('r', self.rng.choice(pool), 0))
+                if self.extra_reads and self.rng.random() < 0.12:
+                    atoms.append(('r', self.rng.choice(self.extra_reads), 0))
+                else:
+                    atoms.append(('r', self.read_name(), 0))
         return atoms
 
     def pattern(self, top=True):
@@ -62,6 +76,7 @@ class Gen(object):
             return ('n', self.name(), 0)
         n = self.rng.randint(2, 3)
         names = self.rng.sample(self.names, min(n, len(self.names)))
+        self.maybe.update(names)
         pats = [('n', x, 0) for x in names]
         if self.rng.random() < 0.3:
             i = self.rng.randrange(len(pats))
@@ -81,6 +96,7 @@ class Gen(object):
                     other = [n for n in self.names if n not in pat_names(targets[0])]
                     if other:
                         targets.append(('n', self.rng.choice(other), 0))
+                        self.maybe.add(targets[-1][1])
                 return {'k': 'assign', 'targets': targets, 'value': self.expr(0, 2)}
             if k < 0.9:
                 return {'k': 'ann', 'name': self.name(), 'site': 0, 'value': self.expr(0, 1) if self.rng.random() < 0.7 else None}
@@ -150,10 +166,65 @@ class Gen(object):
         # a prologue binding some of the names keeps executions from ending at the first read
         body = []
         for n in self.names:
-            if self.rng.random() < 0.55:
+            if self.rng.random() < self.prologue:
+                self.maybe.add(n)
                 body.append({'k': 'assign', 'targets': [('n', n, 0)], 'value': []})
         body += self.block(self.depth, False, 2, 4)
+        if self.single:
+            inject_single(body, self.rng)
         return body
+
+
+def blocks_of(body):
+    """every statement list of the tree: [(block, [enclosing blocks...], guarded)] where guarded marks a try body that
+    begins and ends with a mayraise (canonical form of the C02/C03 fragments: nothing may be put outside the guards)"""
+    out = []
+
+    def guarded(b):
+        return len(b) >= 2 and b[0]['k'] == 'mayraise' and b[-1]['k'] == 'mayraise'
+
+    def rec(b, chain, g):
+        out.append((b, chain, g))
+        for s in b:
+            k = s['k']
+            subs = []
+            if k in ('if', 'while', 'for'):
+                subs = [(s['body'], False), (s['orelse'], False)]
+            elif k == 'with':
+                subs = [(s['body'], False)]
+            elif k == 'try':
+                subs = [(s['body'], bool(s['handlers']) and guarded(s['body']))] + [(h['body'], False) for h in s['handlers']]
+                subs += [(x, False) for x in (s['orelse'], s['final']) if x]
+            for sub, gg in subs:
+                rec(sub, chain + [(b, g)], gg)
+    rec(body, [], False)
+    return out
+
+
+def inject_single(body, rng, name='z'):
+    """bind `name` in exactly one randomly chosen place of the tree and read it right after the binding, at the end
+    of every enclosing block and at the very end: isolates each (binding place, read place) pair, which is what
+    shows a lost path in the analysis (C01) - the other names are usually rebound so often that they stay visible"""
+    target, chain, g = rng.choice(blocks_of(body))
+    lo, hi = (1, len(target) - 1) if g else (0, len(target))
+    pos = rng.randint(lo, hi)
+    form = rng.random()
+    if form < 0.7:
+        bind = {'k': 'assign', 'targets': [('n', name, 0)], 'value': []}
+    elif form < 0.85:
+        bind = {'k': 'expr', 'value': [('w', name, 0)]}
+    else:
+        bind = {'k': 'with', 'items': [([], ('n', name, 0))], 'body': [{'k': 'expr', 'value': [('r', name, 0)]}]}
+    target.insert(pos, bind)
+    target.insert(pos + 1, {'k': 'expr', 'value': [('r', name, 0)]})
+
+    def put_last(b, gg):
+        b.insert(len(b) - 1 if gg else len(b), {'k': 'expr', 'value': [('r', name, 0)]})
+    for b, gg in chain:
+        put_last(b, gg)
+    if rng.random() < 0.5 and target is not body:
+        put_last(target, g)
+    return body
 
 
 def pat_names(p):
